@@ -6,7 +6,7 @@ from core import Result
 import proto, gen
 
 THEOREMS = ['C03_crossings', 'C03_crossing_rise', 'C03_crossing_decay', 'C03_value', 'C03_crossing_exists_rise', 'C03_crossing_exists_decay',
-            'C03_single', 'C03_median', 'C03_centre', 'C03_within_segment', 'C03_count', 'C03_within', 'C03_counts_order', 'C03_routing']
+            'C03_single', 'C03_median', 'C03_centre', 'C03_within_segment', 'C03_count', 'C03_within', 'C03_counts_order', 'C03_routing', 'C03_offset']
 RULE = ("(a) EXHAUSTIVE: every flank segment over the values {-1,0,1,2} of length 2..L in both directions (multiple crossings, ties with the half height, "
         "inverted, all-zero and flat-ended flanks), one in four also as an int8 / int16 / int32 array scaled to the limits of its type, one in four also multiplied by 2^-40; (b) EXHAUSTIVE: every strictly alternating peak/trough index sequence on every signal over {-1,0,1} "
         "of length <= M (count / bias / order logic); (c) cyclepoints from find_extrema on generated signals of all families (first_extrema peak/trough/None, "
